@@ -37,9 +37,32 @@ CLAIMS = {
               "DESIGN.md section 4, C13"),
 }
 
+CLAIMS.update({
+    "C07": _c("The model draws, for every operation that reaches the base allocator, whether the (scripted) base allocator refuses, and "
+              "issues requests whose size computation overflows; TLC checks that every such step returns an error (never success, "
+              "never a panic of a try_/allocator call), that all C01/C02/C05/C10 clauses hold on every later step of the behaviour "
+              "and that later requests the model can serve are served. Collection-level clauses (length/contents after a failed "
+              "push/reserve) are covered for the exclusive-borrow collections of Arena.tla (failed growth keeps the collection).",
+              "DESIGN.md section 4, C07"),
+    "C14": _c("Claim frames in Arena.tla (nested, on unallocated arenas, with scopes/chunk growth/unwinding inside) with operations "
+              "interleaved on the claimed handle and on the guard; TLC checks on every recorded step: requests through the claimed "
+              "handle fail, its dealloc/shrink change nothing, its statistics are zero, a second claim panics, the guard takes over and "
+              "hands back exactly the same position, and every block stays intact and disjoint.",
+              "DESIGN.md section 4, C14"),
+    "C15": _c("Prepare/fill/commit frames in Arena.tla (growth policy of MutBumpVec transcribed) replayed on the real MutBumpVec, "
+              "MutBumpVecRev (7 element layouts) and on the raw dyn prepare_allocation/allocate_prepared interface; TLC checks that "
+              "positions of the creation chunk and earlier chunks never move while filling/dropping/unwinding, only a later EMPTY chunk "
+              "may become current, and that finalising advances the position by len*size plus at most (align-1)+(min_align-1) and yields "
+              "exactly the pushed elements (reversed for rev).", "DESIGN.md section 4, C15"),
+    "C18": _c("aligned / scoped_aligned frames for every ordered pair of alignments, nested with scopes, claims and chunk switches, left "
+              "normally or by unwinding; TLC checks position % N = 0 at entry and after every step inside, position % outer = 0 after "
+              "exit, exact restoration for scoped_aligned, and C01/C02 across the boundaries.",
+              "DESIGN.md section 4, C18"),
+})
+
 ENGINES = [
     {"name": "replay", "path": "/verif/harness/replay",
-     "serves_properties": ["C01", "C02", "C03", "C05", "C10", "C12", "C13"],
+     "serves_properties": ["C01", "C02", "C03", "C05", "C07", "C10", "C12", "C13", "C14", "C15", "C16", "C18"],
      "kind_free_text": "Rust interpreter of TLC-generated Arena.tla behaviours over the settings x base-allocator matrix; records the "
                        "projected arena state after every step as NDJSON evaluated by TLC (spec/ArenaObs.tla)"},
 ]
